@@ -139,10 +139,33 @@ def _probe(m, op):
         }
     fn = calls[what]
     try:
-        fn()
+        got = fn()
+        if what in ("settings", "member_settings", "indicator_settings"):
+            # a settings dict is handed out for the caller to keep, clone and edit (the library deep-copies its
+            # values); readings, by contrast, are handed out by reference and are not scribbled on
+            _scribble(got)
         return None
     except Exception as exc:  # noqa: BLE001 - an accessor may refuse (e.g. empty list); it must still not mutate
         return type(exc).__name__
+
+
+def _scribble(obj, depth=0):
+    """Modify a returned value in place (dicts and lists, recursively): the caller owns what it was handed."""
+    if depth > 3:
+        return
+    if isinstance(obj, dict):
+        for k in list(obj):
+            v = obj[k]
+            if isinstance(v, (dict, list)):
+                _scribble(v, depth + 1)
+            elif isinstance(v, (int, float)) and not isinstance(v, bool):
+                obj[k] = 97
+        obj["__scribbled__"] = 1
+    elif isinstance(obj, list):
+        for v in obj:
+            if isinstance(v, (dict, list)):
+                _scribble(v, depth + 1)
+        obj.append("__scribbled__")
 
 
 def raw_core(c):
